@@ -630,7 +630,7 @@ def c12_decode_for(kind, maxrecv, size):
         nid = 1
         streaming = 0
         for t in tokens:
-            if streaming > 0 and t in (1, 2, 3, 4, 6, 9, 10):
+            if streaming > 0 and t in (1, 2, 3, 4, 6, 9, 10, 11, 12):
                 # a well-formed peer finishes the payload before the next packet
                 cmds.append({"c": "in", "p": {"t": "payload", "n": streaming}})
                 streaming = 0
@@ -664,6 +664,12 @@ def c12_decode_for(kind, maxrecv, size):
             elif t == 10:   # re-transmission of a publish whose identifier is still in use
                 if nid > 1:
                     cmds.append({"c": "in", "p": {"t": "publish", "q": 1, "id": 1, "topic": "t", "plen": 1, "dup": 1}})
+            elif t in (11, 12):   # a burst: several publishes decoded from ONE read (the dispatcher re-checks readiness
+                                  # before the calls it spawned had a chance to run)
+                pk = []
+                for plen in ((1, 1, 1) if t == 11 else (30, 1)):
+                    pk.append({"t": "publish", "q": 1, "id": nid, "topic": "t", "plen": plen}); nid += 1
+                cmds.append({"c": "in", "pkts": pk})
             elif t == 9:    # streamed QoS 1 publish that alone is larger than the byte limit: header + 4 of 70 bytes
                 if streaming == 0:
                     cmds.append({"c": "in", "p": {"t": "publish", "q": 1, "id": nid, "topic": "t", "plen": 70, "send": 4}}); nid += 1
@@ -690,6 +696,10 @@ def c12_configs(tier):
     for kind, mr, size in [("v3s", 0, 40), ("v5s", 2, 40), ("v3s", 2, 40)]:
         cs.append((f"{kind}_r{mr}_s{size}_big", PKTSEQ_CFG.format(nt=9, maxlen=3 if tier == "quick" else 4, minlen=2), "PktSeq",
                    c12_decode_for(kind, mr, size), [None], 100000))
+    # bursts (tokens 11, 12: three small / one big + one small publish in one read): every sequence up to 3 (quick) / 4
+    for kind, mr, size in [("v3s", 1, 0), ("v3s", 2, 0), ("v3s", 0, 40), ("v3s", 2, 40), ("v5s", 2, 0), ("v5c", 2, 0), ("v3c", 2, 0)]:
+        cs.append((f"{kind}_r{mr}_s{size}_burst", PKTSEQ_CFG.format(nt=12, maxlen=3 if tier == "quick" else 4, minlen=1), "PktSeq",
+                   c12_decode_for(kind, mr, size), [None], 600 if tier == "quick" else 100000))
     # re-transmitted identifiers (token 10) against the Receive Maximum: every sequence up to 4 (quick) / 5
     for kind, mr in [("v5s", 1), ("v5s", 2), ("v5c", 1)]:
         cs.append((f"{kind}_r{mr}_dup", PKTSEQ_CFG.format(nt=10, maxlen=4 if tier == "quick" else 5, minlen=3), "PktSeq",
